@@ -24,3 +24,44 @@ def make(check, self_inputs=False, budget_quick=60, budget_thorough=1500, tasks=
         checkers[site] = chk
         oracles[site] = gen
     return checkers, oracles
+
+
+# task-level oracles written with the task slices (harness/suites/*.py, harness/props/t_*.py), routed to the
+# property they check so that a failure is never attributed to another property
+EXTRA = {
+    "C01": [("t_misc", None, "range"), ("t_pattern", "pattern.range", None), ("t_pattern", "pattern.standard_FPR", None),
+            ("t_melody", "melody.evaluate:range", None), ("t_multipitch", "multipitch.metrics/range", None)],
+    "C02": [("t_misc", None, "self"), ("t_pattern", "pattern.self", None), ("t_melody", "melody.evaluate:self", None),
+            ("t_multipitch", "multipitch.metrics/self", None)],
+    "C04": [("t_misc", None, "definition"), ("t_melody", "melody.frames:definition", None)],
+    "C06": [("t_misc", None, "swap"), ("t_pattern", "pattern.swap", None), ("t_multipitch", "multipitch.metrics/swap", None)],
+    "C07": [("t_misc", None, "widen"), ("t_melody", "melody.evaluate:tolerance", None),
+            ("t_melody", "melody.frames:tolerance", None), ("t_multipitch", "multipitch.metrics/widen", None)],
+    "C08": [("t_misc", None, "shift"), ("t_misc", None, "est-swap"), ("t_pattern", "pattern.shift", None),
+            ("t_pattern", "pattern.perm", None), ("t_multipitch", "multipitch.metrics/shift+permute", None)],
+    "C09": [("t_melody", "melody.evaluate:octave", None), ("t_multipitch", "multipitch.metrics/transpose+octave", None)],
+}
+
+
+def extra(pid):
+    """-> (checkers, oracles) taken from the task modules for property `pid`"""
+    import importlib
+    checkers, oracles = {}, {}
+    for modname, site, prop in EXTRA.get(pid, []):
+        try:
+            mod = importlib.import_module("props." + modname)
+        except ImportError:
+            continue
+        sites = [site] if site else [s for s in mod.ORACLES if s != "definition"]
+        for st in sites:
+            if st not in mod.ORACLES or st not in mod.CHECKERS:
+                continue
+            name = "%s[%s]" % (st, prop) if prop else st
+
+            def gen(rng, tier, shard, nshards, boost, g=mod.ORACLES[st], prop=prop):
+                for inp in g(rng, tier, shard, nshards, boost):
+                    if prop is None or (isinstance(inp, dict) and inp.get("prop") == prop):
+                        yield inp
+            checkers[name] = mod.CHECKERS[st]
+            oracles[name] = gen
+    return checkers, oracles
